@@ -89,7 +89,14 @@ class Pop3Session(Harness):
                 left = uids_of(await b.cmd("UID SEARCH ALL"))
                 return uids0, out, retr, left
 
-        uids0, out, retr, left = run(go())
+        try:
+            uids0, out, retr, left = run(go())
+        except Exception as e:  # noqa: BLE001  -- the code under test raised in the middle of a POP3 session: that is an outcome, not a harness error
+            import traceback
+
+            tb = traceback.extract_tb(e.__traceback__)
+            where = next((f"{f.filename.split('/')[-1]}:{f.lineno} in {f.name}" for f in reversed(tb) if "/asimap/" in f.filename), "?")
+            return {"observed": f"{type(e).__name__}: {e} at {where}", "clause": "every POP3 command of the session is answered (the snapshot is fixed whatever IMAP sessions do)"}
         # UIDL == IMAP UIDs, stable
         want_uidl = "+OK\r\n" + "".join(f"{i + 1} {u}\r\n" for i, u in enumerate(uids0)) + ".\r\n"
         if out["uidl"] != want_uidl or out["uidl2"] != want_uidl:
